@@ -107,6 +107,17 @@ Proof.
   rewrite H. unfold gshape. apply map_length.
 Qed.
 
+(* the covered cells are listed once each, and there are as many as `true` entries of the rendered mask *)
+Lemma ball_cells_nodup g c r : NoDup (ball_cells g c r).
+Proof. unfold ball_cells. apply NoDup_filter. apply nodup_all_cells. Qed.
+
+Lemma ball_cells_count g c r :
+  length (ball_cells g c r) = length (filter (fun b : bool => b) (mask_sphere g c r)).
+Proof.
+  unfold ball_cells, mask_sphere. induction (all_cells (gshape g)) as [|idx l IH]; cbn [filter map]; [reflexivity|].
+  destruct (inside g c r idx); cbn [length]; congruence.
+Qed.
+
 Theorem balls_disjoint g c1 r1 c2 r2 k a x1 x2 :
   nth_error g k = Some a -> aper a = false -> axis_ok a ->
   nth_error c1 k = Some x1 -> nth_error c2 k = Some x2 ->
